@@ -332,9 +332,11 @@ def _report(spec: Dict[str, Any], tier: str, seed: int, jobs: int, results: List
             "oracle_comparisons": evals,
             "runs_per_hour": round(per_hour, 1), "seeds_per_hour": round(per_hour, 1),
             "simulated_time_s": round(clock_s, 1),
-            "simulated_time_note": ("sum over sessions of the advance of the simulated wall clock (time.time seam: seeded jumps of 0 .. 61 s "
-                                    "at operation boundaries). HTA has no timers, deadlines or sleeps: the clock only reaches gzip headers; "
-                                    "progress is counted in operations and scheduler steps"),
+            "simulated_time_note": ("sum over sessions of the movement of the simulated wall clock (time.time seam: seeded jumps of "
+                                    "-5400 s .. +3600 s at operation boundaries, backward ones counted by the probe clock_jumped_back; sessions of "
+                                    "one world start 30 s .. 40 days after - or 4000 s before - the previous one; file modification times follow "
+                                    "this clock). HTA has no timers, deadlines or sleeps: on the unchanged tree the clock only reaches gzip "
+                                    "headers and file times; progress is counted in operations and scheduler steps"),
             "scheduler_steps": sched_steps, "scheduler_choices": choices,
             "faults_configured": faults_cfg, "faults_fired": fired,
             "distinct_pool_schedules": len(schedules),
@@ -346,7 +348,11 @@ def _report(spec: Dict[str, Any], tier: str, seed: int, jobs: int, results: List
                                 "pickle", "os.fork (pool workers, session children)", "files on tmpfs"],
             "components_stubbed": ["multiprocessing.Pool/Manager objects (SimPool: real forked workers, lock-step)",
                                    "cpu_count", "psutil.virtual_memory", "tracemalloc", "os.listdir order",
-                                   "time.time / time.time_ns (simulated wall clock)",
+                                   "time.time / time.time_ns (simulated wall clock, model 2: backward jumps, per-session start times)",
+                                   "file modification times (stamped from the simulated clock when a file written through the file seam is closed)",
+                                   "concurrent.futures.ThreadPoolExecutor / multiprocessing.pool.ThreadPool / threading.Thread / threading.Lock, RLock "
+                                   "(real threads under a baton, pre-empted at lock operations and tape-chosen source lines of hta; unused by the unchanged tree)",
+                                   "concurrent.futures.ProcessPoolExecutor, as_completed, wait (lock-step workers, completion order from the tape)",
                                    "garbage-collector schedule (automatic collection off, full collection at operation boundaries)",
                                    "plotting (visualize=False)"],
             "violations_of_other_properties_seen": other_props,
